@@ -613,6 +613,9 @@ def chain_stage_pool():
         for p in (0, 2, 5):
             pool.append("%s:static:%d" % (kind, p))
             pool.append("%s:dyninit:%d" % (kind, p))
+            if p == 2:
+                pool.append("%s:static:%d:self" % (kind, p))
+                pool.append("%s:dyninit:%d:self" % (kind, p))
         pool.append("%s:dynamic:-" % kind)
         pool.append("%s:dynamic:-:self" % kind)
     for m in (85, 170, 255, 0):
@@ -786,6 +789,19 @@ def lin_cases(rng, n):
             return counter[0] * 10 + rng.randrange(10)     # distinct `e` parts: all values differ by eq
         sets_only = rng.random() < 0.4
         progs = []
+        if rng.random() < 0.3:
+            # writer(s) racing subscribers that only call next_now / poll: a value and its version must be
+            # taken together
+            nt = rng.randrange(2, 5)
+            nsubs = nt - 1
+            for t in range(nt):
+                if t == nt - 1:
+                    progs.append(" ; ".join("set(%d)" % fresh() for _ in range(rng.randrange(1, 4))))
+                else:
+                    progs.append(" ; ".join(rng.choice(("next_now(%d)", "next_now(%d)", "poll(%d)")) % t
+                                            for _ in range(rng.randrange(1, 4))))
+            cases.append("subs=%d || %s" % (nsubs, " | ".join(progs)))
+            continue
         for t in range(nt):
             ops = []
             for _ in range(rng.randrange(2, 6)):
